@@ -420,14 +420,171 @@ fn oracle_string(h: &Hist, p: &mut Probe) -> Result<(), Fail> {
     check_hist::<String>(h, |i| format!("v{i}"), p)
 }
 
+// ------------------------------------------------------------------ zero-sized elements, astronomic counts
+
+/// Histories on `Stack<()>`: elements cost nothing, so counts near `usize::MAX` are reachable - bulk
+/// insertions whose size added to the current size does not even fit in a `usize` must be refused like
+/// any other overflow (never a panic, never accepted), and sizes far beyond memory work like small ones.
+#[derive(Clone, Debug, Serialize, Deserialize)]
+pub enum ZOp {
+    Push,
+    Pop,
+    /// push_many of exactly the free room minus this many (kept below 200000 elements)
+    PushManyFitting(u8),
+    /// push_many of the free room plus 1 + this many
+    PushManyOver(u8),
+    /// push_many of `usize::MAX - size + 1 + this`: the sum overflows a usize (needs size > this)
+    PushManyWrapping(u8),
+    /// push_many of `usize::MAX` elements onto a non-empty stack
+    PushManyMax,
+    /// try_extend with free room + 1 + this many (only while the room is below 200000)
+    TryExtendOver(u8),
+    TryExtendFitting(u8),
+    SetMax(usize),
+    SetMaxNearTop(u8),
+    Discard(u8),
+    DiscardAll,
+}
+
+#[derive(Clone, Debug, Serialize, Deserialize)]
+pub struct ZHist {
+    pub cap: usize,
+    pub ops: Vec<ZOp>,
+}
+
+pub fn zst_oracle(h: &ZHist, probe: &mut Probe) -> Result<(), Fail> {
+    let mut real: Stack<()> = Stack::default();
+    real.set_max_stack_size(h.cap);
+    let (mut len, mut cap) = (0usize, h.cap);
+    let mut wrapped = false;
+    for (step, op) in h.ops.iter().enumerate() {
+        let room = cap.saturating_sub(len);
+        // (number of elements, must it succeed) or None when the op is skipped in this state
+        let bulk = |n: usize| (n, len.checked_add(n).is_some_and(|t| t <= cap));
+        let plan: Option<(&str, usize, bool)> = match op {
+            ZOp::Push => Some(("push", 1, len < cap)),
+            ZOp::PushManyFitting(d) => (room.saturating_sub(usize::from(*d)) <= 200_000).then(|| { let (n, ok) = bulk(room.saturating_sub(usize::from(*d))); ("push_many", n, ok) }).filter(|(_, n, _)| *n > 0 || len <= cap),
+            ZOp::PushManyOver(e) => room.checked_add(1 + usize::from(*e)).map(|n| ("push_many", n, false)),
+            ZOp::PushManyWrapping(e) => (len > usize::from(*e)).then(|| ("push_many", usize::MAX - len + 1 + usize::from(*e), false)),
+            ZOp::PushManyMax => (len > 0).then_some(("push_many", usize::MAX, false)),
+            ZOp::TryExtendOver(e) => (room <= 200_000).then(|| ("try_extend", room + 1 + usize::from(*e), false)),
+            ZOp::TryExtendFitting(d) => (room.saturating_sub(usize::from(*d)) <= 200_000 && room > usize::from(*d)).then(|| ("try_extend", room - usize::from(*d), true)),
+            ZOp::Pop | ZOp::SetMax(_) | ZOp::SetMaxNearTop(_) | ZOp::Discard(_) | ZOp::DiscardAll => None,
+        };
+        let what;
+        let outcome: Result<Result<(), StackError>, String> = match (op, plan) {
+            (ZOp::Push, _) => {
+                what = "push".to_string();
+                guarded(|| real.push(()))
+            }
+            (_, Some((name, n, _))) => {
+                what = format!("{name} of {n} elements");
+                if n > usize::MAX / 2 {
+                    wrapped = true;
+                }
+                if name == "push_many" {
+                    guarded(|| real.push_many(std::iter::repeat_n((), n)))
+                } else {
+                    guarded(|| real.try_extend(&mut std::iter::repeat_n((), n)))
+                }
+            }
+            (ZOp::Pop, _) => {
+                what = "pop".to_string();
+                guarded(|| real.pop())
+            }
+            (ZOp::SetMax(m), _) => {
+                cap = *m;
+                real.set_max_stack_size(cap);
+                continue;
+            }
+            (ZOp::SetMaxNearTop(d), _) => {
+                cap = usize::MAX - usize::from(*d);
+                real.set_max_stack_size(cap);
+                continue;
+            }
+            (ZOp::Discard(k), _) => {
+                what = format!("discard({k})");
+                guarded(|| real.discard(usize::from(*k)))
+            }
+            (ZOp::DiscardAll, _) => {
+                what = format!("discard({len})");
+                guarded(|| real.discard(len))
+            }
+            _ => continue, // op not applicable in this state
+        };
+        let got = match outcome {
+            Ok(r) => r,
+            Err(p) => fail!(format!("zst/panic:{}", panic_key(&p)), "step {step}: {what} on a Stack<()> of {len} elements (maximum {cap}) panicked: {p}"),
+        };
+        let expect_ok = match (op, plan) {
+            (ZOp::Push, _) => len < cap,
+            (_, Some((_, _, ok))) => ok,
+            (ZOp::Pop, _) => len >= 1,
+            (ZOp::Discard(k), _) => usize::from(*k) <= len,
+            (ZOp::DiscardAll, _) => true,
+            _ => true,
+        };
+        ensure!(
+            got.is_ok() == expect_ok,
+            "zst/return-value",
+            "step {step}: {what} on a Stack<()> of {len} elements (maximum {cap}) returned {got:?}, expected {}",
+            if expect_ok { "Ok" } else { "an error" }
+        );
+        if expect_ok {
+            match (op, plan) {
+                (ZOp::Push, _) => len += 1,
+                (_, Some((_, n, _))) => len += n,
+                (ZOp::Pop, _) => len -= 1,
+                (ZOp::Discard(k), _) => len -= usize::from(*k),
+                (ZOp::DiscardAll, _) => len = 0,
+                _ => {}
+            }
+        }
+        ensure!(
+            real.size() == len && real.is_empty() == (len == 0) && real.max_stack_size() == cap,
+            "zst/size",
+            "step {step}: after {what} the stack reports size {} (expected {len}), maximum {}",
+            real.size(),
+            real.max_stack_size()
+        );
+    }
+    probe.nontrivial = wrapped && h.ops.len() >= 3;
+    if wrapped {
+        probe.label("bulk insertion of more than usize::MAX / 2 elements attempted");
+    }
+    if len > 1_000_000 {
+        probe.label("stack of more than a million zero-sized elements");
+    }
+    Ok(())
+}
+
+fn zst_strategy() -> impl Strategy<Value = ZHist> {
+    let op = prop_oneof![
+        4 => Just(ZOp::Push),
+        2 => Just(ZOp::Pop),
+        3 => (0u8..4).prop_map(ZOp::PushManyFitting),
+        3 => (0u8..4).prop_map(ZOp::PushManyOver),
+        4 => (0u8..4).prop_map(ZOp::PushManyWrapping),
+        2 => Just(ZOp::PushManyMax),
+        2 => (0u8..4).prop_map(ZOp::TryExtendOver),
+        2 => (0u8..4).prop_map(ZOp::TryExtendFitting),
+        2 => prop_oneof![(0usize..10).prop_map(ZOp::SetMax), Just(ZOp::SetMax(usize::MAX)), Just(ZOp::SetMax(100_000))],
+        2 => (0u8..4).prop_map(ZOp::SetMaxNearTop),
+        1 => (0u8..5).prop_map(ZOp::Discard),
+        1 => Just(ZOp::DiscardAll),
+    ];
+    (prop_oneof![Just(usize::MAX), Just(usize::MAX - 1), Just(8usize), Just(100_000usize), Just(0usize), Just(usize::MAX / 2 + 1)], prop::collection::vec(op, 0..16)).prop_map(|(cap, ops)| ZHist { cap, ops })
+}
+
 pub fn run(ctx: &mut Ctx) {
-    ctx.rule = "histories Vec<Op> over push/pop/pop2/pop3/top/top2/top3/discard/push_many/try_extend(plain iterator)/set_max_stack_size/queries on Stack<u16> and Stack<String>, unique values per history, capacities {0,1,2,3,5,8,33,64,100,usize::MAX-1,usize::MAX}, bulk insertions of 0..6 and occasionally 28..69 elements, try_extend iterators without a size hint and with valid but imprecise hints; lock-step against a Vec+capacity model after every op. non-trivial = length >= 5 with >= 1 failing op and >= 1 multi-element op; distinct by JSON encoding of the history".into();
+    ctx.rule = "histories Vec<Op> over push/pop/pop2/pop3/top/top2/top3/discard/push_many/try_extend(plain iterator)/set_max_stack_size/queries on Stack<u16> and Stack<String>, unique values per history, capacities {0,1,2,3,5,8,33,64,100,usize::MAX-1,usize::MAX}, bulk insertions of 0..6 and occasionally 28..69 elements, try_extend iterators without a size hint and with valid but imprecise hints; lock-step against a Vec+capacity model after every op; plus histories on Stack<()> (zero-sized elements) with capacities up to usize::MAX and bulk insertions whose size added to the current size does not fit in a usize. non-trivial = length >= 5 with >= 1 failing op and >= 1 multi-element op; distinct by JSON encoding of the history".into();
     ctx.assumptions.push("zero-element insertion above a lowered maximum is unconstrained; is_full only compared while size <= max".into());
     let (n, len) = ctx.tier.pick((200_000, 40), (3_000_000, 400));
     ctx.run_prop("hist_u16", n, || hist_strategy(len), oracle_u16);
     ctx.run_prop("hist_string", n / 4, || hist_strategy(len), oracle_string);
     // short histories, dense: many more distinct prefixes of length <= 6
     ctx.run_prop("hist_short", n, || hist_strategy(6), oracle_u16);
+    ctx.run_prop("hist_zero_sized", n / 4, zst_strategy, zst_oracle);
     if ctx.tier == crate::Tier::Thorough && ctx.violations().is_empty() {
         for bytes in crate::fuzzrun::campaign(ctx, "stack_hist", 16, 1_500_000, 512) {
             let h = crate::fuzzdec::decode_hist(&bytes);
@@ -442,6 +599,7 @@ pub fn run(ctx: &mut Ctx) {
 pub fn replay(ctx: &mut Ctx, sub: &str, case: &Value) {
     match sub {
         "hist_string" => ctx.replay_case::<Hist, _>(sub, case, oracle_string),
+        "hist_zero_sized" => ctx.replay_case::<ZHist, _>(sub, case, zst_oracle),
         "fuzz_stack_hist" => ctx.replay_case::<Hist, _>(sub, case, oracle_u16),
         _ => ctx.replay_case::<Hist, _>(sub, case, oracle_u16),
     }
